@@ -59,10 +59,18 @@ def run(rep, work, tier, seed):
     # sync scopes, updates and several nested blocks left by one Exception / BaseException up to a catch-all: Scopes.tla
     # (Try / Raise with the action property Restored), replayed on a single task
     from props.scopes_common import ScopesDriver
-    sc = dict(NTasks=1, Types=["A", "B"], Vals=[1, 2], MaxDepth=3, MaxOps=4 if tier == "quick" else 5, SupKind="tiny", Bug="none")
+    sc = dict(NTasks=1, Types=["A", "B"], Vals=[1, 2], MaxDepth=3, MaxOps=4 if tier == "quick" else 5, SupKind="tiny", Prep=False, Bug="none")
     leg_m(rep, work, "Scopes", f"scopes_mc_{tier}", cfg_text(sc, spec="Spec", invariants=["TypeOK", "LexicalLookup"],
                                                               properties=["Restored"]), expect_actions=["Try", "Raise", "Leave"])
     leg_r(rep, work, "Scopes", f"scopes_conf_{tier}", cfg_text(sc, invariants=["TypeOK"]), lambda: ScopesDriver(("A", "B")), world=True)
+    # block objects prepared in one place and entered in another; a refused second entering of an async scope object
+    # leaves the surrounding context (state, metrics scope, task group) as it was
+    sp = dict(sc, MaxDepth=2, MaxOps=4 if tier == "quick" else 5, Prep=True)
+    leg_m(rep, work, "Scopes", f"scopes_prep_mc_{tier}", cfg_text(sp, spec="Spec", invariants=["TypeOK", "LexicalLookup"],
+                                                                   properties=["Restored", "Isolation"]),
+          expect_actions=["Prepare", "EnterPrepared", "ReEnter"])
+    leg_r(rep, work, "Scopes", f"scopes_prep_conf_{tier}", cfg_text(sp, invariants=["TypeOK"]), lambda: ScopesDriver(("A", "B")),
+          world=True)
     # leg T: 4 disposables / 3 spawned tasks, random environment moves among those the real scope offers
     from props.scopelife_common import TRACE_KW as LIFE_KW, gen_trace as life_trace
     rnd = random.Random(seed * 43 + 7)
